@@ -141,6 +141,8 @@ def canon(o, _memo=None):
             return ["mv", int(o.space.dimensions), items]
     except ImportError:
         pass
+    if type(o).__name__ == "UConst":
+        return ["uconst", o.tag]
     if isinstance(o, type):
         return ["type", o.__module__ + "." + o.__qualname__]
     if callable(o):
